@@ -159,7 +159,10 @@ func trunc(s string) string {
 
 // ---- history file: length-prefixed protobuf records -----------------------------------
 
-type HistoryWriter struct{ f *os.File; w *bufio.Writer }
+type HistoryWriter struct {
+	f *os.File
+	w *bufio.Writer
+}
 
 func NewHistoryWriter(path string) (*HistoryWriter, error) {
 	f, err := os.Create(path)
@@ -184,9 +187,9 @@ func (h *HistoryWriter) put(kind byte, m proto.Message) error {
 	return err
 }
 
-func (h *HistoryWriter) Init(req *abci.RequestInitChain) error        { return h.put('I', req) }
-func (h *HistoryWriter) Block(req *abci.RequestFinalizeBlock) error   { return h.put('B', req) }
-func (h *HistoryWriter) Close() error                                 { h.w.Flush(); return h.f.Close() }
+func (h *HistoryWriter) Init(req *abci.RequestInitChain) error      { return h.put('I', req) }
+func (h *HistoryWriter) Block(req *abci.RequestFinalizeBlock) error { return h.put('B', req) }
+func (h *HistoryWriter) Close() error                               { h.w.Flush(); return h.f.Close() }
 
 // ReadHistory loads a recorded history.
 func ReadHistory(path string) (*abci.RequestInitChain, []*abci.RequestFinalizeBlock, error) {
